@@ -277,7 +277,7 @@ def handle_if_paths(idx, fi):
     def prnt(interp, call, recv, args, kwargs):
         interp.record_call("csvpath.print", args)
 
-    it = Interp(idx, types={"self": "ErrorHandler"},
+    it = Interp(idx, types={"self": "ErrorHandler"}, inline_all={"ErrorHandler"},
                 handlers={"self._error_collector.collect_error": collect, "self._csvpath.print": prnt},
                 ignore=("logger.", "logging.", "time.", "warnings."))
     eager = {f: [True, False, None] for f in flags}
